@@ -52,13 +52,13 @@ theorem waitSem_nonone {cx : Cx} {fuel sL : Nat} {w : List (Option BP)} {hs dIn 
 /-- a case handler with a block -/
 theorem caseStep_c (cx : Cx) (fuel : Nat) (endL : Nat) (bp : BP) (hpos : bp.positive = true) (body : Stmts) {bodyM : M (List LItem)}
     (hret : Ret (fun r => loneJump r = none) bodyM)
-    (hBody : ∀ env', PlainEnv env' → PM cx bodyM (fun k b => Src.trStmts fuel [] env' (toSrcStmts body) k b) env')
+    (hBody : ∀ env', EnvOK cx env' → PM cx bodyM (fun k b => Src.trStmts fuel [] env' (toSrcStmts body) k b) env')
     {st : SwSt} {s : St} {st' : SwSt} {s' : St} (hw : WaitOK st.waiting) (h : caseStep endL bp false bodyM st s = .ok (st', s')) :
     SameStk s s' ∧ st'.waiting = [] ∧ ∃ hs d1 sL eB ops sa sb n,
       st'.hdrJumps = st.hdrJumps ++ (hs ++ [LItem.ljump ⟨n, bp.name, bp.params⟩ (some sL)]) ∧
       st'.caseOps = st.caseOps ++ ([LItem.label sL false] ++ ops ++ [LItem.label eB false]) ∧ st'.defaultOps = d1 ∧
       WaitSem cx fuel sL st.waiting hs st.defaultOps d1 ∧
-      (∀ env', PlainEnv env' → PieceOK cx ops sa sb (fun k b => Src.trStmts fuel [] env' (toSrcStmts body) k b) env') ∧
+      (∀ env', EnvOK cx env' → PieceOK cx ops sa sb (fun k b => Src.trStmts fuel [] env' (toSrcStmts body) k b) env') ∧
       sa.loops = s.loops ∧ sa.cases = endL :: s.cases := by
   unfold caseStep at h
   simp only [Bool.false_eq_true, ↓reduceIte, bind_ok, pushCase_ok, popCase_ok] at h
@@ -75,7 +75,7 @@ theorem caseStep_c (cx : Cx) (fuel : Nat) (endL : Nat) (bp : BP) (hpos : bp.posi
   obtain ⟨rfl, rfl⟩ := h6
   obtain ⟨e5, ws⟩ := waiting_sem cx fuel sL _ _ _ _ _ _ hw h5
   have hP := fun env' he' => hBody env' he' _ _ _ hrun
-  have hP0 := hP {} ⟨rfl, rfl⟩
+  have hP0 := hP {} (envOK_empty cx)
   have hhdr : ∃ n, blk.hdrs = [LItem.ljump ⟨n, bp.name, bp.params⟩ (some sL)] := by
     generalize blk.hdrs = H at hh
     cases hh with
@@ -96,13 +96,13 @@ theorem caseStep_c (cx : Cx) (fuel : Nat) (endL : Nat) (bp : BP) (hpos : bp.posi
 /-- the default handler with a block -/
 theorem defaultStep_c (cx : Cx) (fuel : Nat) (endL : Nat) (body : Stmts) {bodyM : M (List LItem)}
     (hret : Ret (fun r => loneJump r = none) bodyM)
-    (hBody : ∀ env', PlainEnv env' → PM cx bodyM (fun k b => Src.trStmts fuel [] env' (toSrcStmts body) k b) env')
+    (hBody : ∀ env', EnvOK cx env' → PM cx bodyM (fun k b => Src.trStmts fuel [] env' (toSrcStmts body) k b) env')
     {st : SwSt} {s : St} {st' : SwSt} {s' : St} (hw : WaitOK st.waiting) (h : defaultStep endL false bodyM st s = .ok (st', s')) :
     SameStk s s' ∧ st'.waiting = [] ∧ ∃ hs d1 sL eB ops sa sb n0,
       st'.hdrJumps = st.hdrJumps ++ hs ∧
       st'.caseOps = st.caseOps ++ ([LItem.label sL false] ++ ops ++ [LItem.label eB false]) ∧ st'.defaultOps = d1 ∧
       WaitSem cx fuel sL st.waiting hs [LItem.ljump ⟨n0, Gen.op_jump, []⟩ (some sL)] d1 ∧
-      (∀ env', PlainEnv env' → PieceOK cx ops sa sb (fun k b => Src.trStmts fuel [] env' (toSrcStmts body) k b) env') ∧
+      (∀ env', EnvOK cx env' → PieceOK cx ops sa sb (fun k b => Src.trStmts fuel [] env' (toSrcStmts body) k b) env') ∧
       sa.loops = s.loops ∧ sa.cases = endL :: s.cases := by
   unfold defaultStep at h
   simp only [Bool.false_eq_true, ↓reduceIte, bind_ok, pushCase_ok, popCase_ok] at h
@@ -120,7 +120,7 @@ theorem defaultStep_c (cx : Cx) (fuel : Nat) (endL : Nat) (body : Stmts) {bodyM 
   obtain ⟨rfl, rfl⟩ := buildFor_none (b := defJmpBP) rfl h5
   obtain ⟨e6, ws⟩ := waiting_sem cx fuel sL _ _ _ _ _ _ hw h6
   have hP := fun env' he' => hBody env' he' _ _ _ hrun
-  have hP0 := hP {} ⟨rfl, rfl⟩
+  have hP0 := hP {} (envOK_empty cx)
   have hstk : SameStk s s2.popCase := by
     refine ⟨?_, ?_⟩
     · show s2.loops = s.loops
@@ -133,7 +133,7 @@ theorem defaultStep_c (cx : Cx) (fuel : Nat) (endL : Nat) (body : Stmts) {bodyM 
 
 /-- step 3 of `SwitchBlock.collect` over the handlers of `cs`, from any state of the step -/
 def CasesC (cx : Cx) (fuel : Nat) (sw : String) (cs : Cases) (run : Nat → List BP → SwSt → M SwSt) : Prop :=
-  ∀ (env : Src.Env), PlainEnv env → ∀ (endL : Nat) (bps : List BP) (st : SwSt) (s : St) (st' : SwSt) (s' : St),
+  ∀ (env : Src.Env), EnvOK cx env → ∀ (endL : Nat) (bps : List BP) (st : SwSt) (s : St) (st' : SwSt) (s' : St),
     BpsOK sw cs bps → WaitOK st.waiting → (if hasNone st.waiting then 1 else 0) + countDefaults cs ≤ 1 →
     run endL bps st s = .ok (st', s') →
     SameStk s s' ∧ (NoNone st.defaultOps → NoNone st'.defaultOps) ∧
